@@ -10,6 +10,12 @@
 //        result as for m.  Script action SR:<Key>:<n>:<bytehex> = Header().Set(Key, n copies of the byte).
 //        q <na> <nb>   the same interleaving for bfe_http.Request.Write towards a backend (A: 5000-byte header + na keys,
 //        B: nb keys); result `<A equals its sequential bytes 0|1> <B …>`
+//        p @<k> A;B   as p, but A stalls at its first socket write after at least k bytes are out (mid-body for large k)
+//        b <GET|HEAD> <10|11> <req Connection hex|-> <keepalives> <status> <framing> <flags>
+//          the response comes from a backend as WIRE bytes: real ReadResponse -> ReverseProxy.sendResponse -> finishRequest.
+//          framing: L<n>_<m> Content-Length n with m body bytes on the wire | C<s1>_<s2>..[t][x] chunked (t trailer, x cut off
+//          inside the last chunk) | N<m> no framing, m bytes then EOF.   flags: c Connection: close, k Connection: keep-alive,
+//          T Content-Type, B a 5000-byte header (crosses the 4 KB read buffer), - none.  Always X-Id: b.
 // result: <closeAfterReply 0|1> <requestBodyLimitHit 0|1> <write results, one digit each|-> <unread request bytes> <hex of bytes on the wire, Date value replaced by D>
 package main
 
@@ -79,8 +85,24 @@ func parseScript(s string) ([]bfe_server.VerifC27Action, bool) {
 func exec(op string) string {
 	bfe_server.VerifC27ResetStatusCache()
 	bfe_http.VerifC27DrainSorterCache()
+	if strings.HasPrefix(op, "b ") {
+		return execBackend(op)
+	}
 	if strings.HasPrefix(op, "p ") {
-		es := strings.Split(op[2:], ";")
+		rest := op[2:]
+		gateAt := 0
+		if strings.HasPrefix(rest, "@") {
+			i := strings.IndexByte(rest, ' ')
+			if i < 0 {
+				return "bad-op"
+			}
+			k, err := strconv.Atoi(rest[1:i])
+			if err != nil || k < 0 {
+				return "bad-op"
+			}
+			gateAt, rest = k, rest[i+1:]
+		}
+		es := strings.Split(rest, ";")
 		if len(es) != 2 {
 			return "bad-op"
 		}
@@ -89,8 +111,8 @@ func exec(op string) string {
 		if !oka || !okb {
 			return "bad-op"
 		}
-		ra, rb, hang := bfe_server.VerifC27RunPair(bfe_server.VerifC27Exchange{Input: ia, KeepAlive: ka, Script: sa},
-			bfe_server.VerifC27Exchange{Input: ib, KeepAlive: kb, Script: sb})
+		ra, rb, hang := bfe_server.VerifC27RunPairAt(bfe_server.VerifC27Exchange{Input: ia, KeepAlive: ka, Script: sa},
+			bfe_server.VerifC27Exchange{Input: ib, KeepAlive: kb, Script: sb}, gateAt)
 		if hang {
 			return "HANG"
 		}
@@ -160,6 +182,115 @@ func execOne(op string) string {
 		return "bad-op"
 	}
 	return renderRes(bfe_server.VerifC27Run(input, ka, script))
+}
+
+// backendWire renders the backend response descriptor; ok=false for a malformed descriptor.
+func backendWire(status, framing, flags string) ([]byte, bool) {
+	var b strings.Builder
+	b.WriteString("HTTP/1.1 " + status + " X\r\nX-Id: b\r\n")
+	for _, fl := range flags {
+		switch fl {
+		case 'c':
+			b.WriteString("Connection: close\r\n")
+		case 'k':
+			b.WriteString("Connection: keep-alive\r\n")
+		case 'T':
+			b.WriteString("Content-Type: text/x\r\n")
+		case 'B':
+			b.WriteString("X-Big: " + strings.Repeat("g", 5000) + "\r\n")
+		case '-':
+		default:
+			return nil, false
+		}
+	}
+	num := func(x string) (int, bool) {
+		n, err := strconv.Atoi(x)
+		return n, err == nil && n >= 0 && n <= 1<<16
+	}
+	switch {
+	case strings.HasPrefix(framing, "L"):
+		g := strings.Split(framing[1:], "_")
+		if len(g) != 2 {
+			return nil, false
+		}
+		n, ok1 := num(g[0])
+		m, ok2 := num(g[1])
+		if !ok1 || !ok2 {
+			return nil, false
+		}
+		fmt.Fprintf(&b, "Content-Length: %d\r\n\r\n%s", n, strings.Repeat("x", m))
+	case strings.HasPrefix(framing, "N"):
+		m, ok := num(framing[1:])
+		if !ok {
+			return nil, false
+		}
+		b.WriteString("\r\n" + strings.Repeat("x", m))
+	case strings.HasPrefix(framing, "C"):
+		body := framing[1:]
+		cut := strings.HasSuffix(body, "x")
+		if cut {
+			body = body[:len(body)-1]
+		}
+		trailer := strings.HasSuffix(body, "t")
+		if trailer {
+			body = body[:len(body)-1]
+		}
+		b.WriteString("Transfer-Encoding: chunked\r\n")
+		if trailer {
+			b.WriteString("Trailer: X-T\r\n")
+		}
+		b.WriteString("\r\n")
+		var sizes []int
+		if body != "" {
+			for _, x := range strings.Split(body, "_") {
+				n, ok := num(x)
+				if !ok || n == 0 {
+					return nil, false
+				}
+				sizes = append(sizes, n)
+			}
+		}
+		if cut && len(sizes) == 0 {
+			return nil, false
+		}
+		for i, n := range sizes {
+			if cut && i == len(sizes)-1 {
+				fmt.Fprintf(&b, "%x\r\n%s", n, strings.Repeat("x", n/2)) // the backend dies inside the last chunk
+				return []byte(b.String()), true
+			}
+			fmt.Fprintf(&b, "%x\r\n%s\r\n", n, strings.Repeat("x", n))
+		}
+		b.WriteString("0\r\n")
+		if trailer {
+			b.WriteString("X-T: 1\r\n")
+		}
+		b.WriteString("\r\n")
+	default:
+		return nil, false
+	}
+	return []byte(b.String()), true
+}
+
+func execBackend(op string) string {
+	f := strings.Split(op, " ")
+	if len(f) != 8 || (f[1] != "GET" && f[1] != "HEAD") || (f[2] != "10" && f[2] != "11") || (f[4] != "0" && f[4] != "1") {
+		return "bad-op"
+	}
+	conn, ok := vh.UnHex(f[3])
+	wire, ok2 := backendWire(f[5], f[6], f[7])
+	if _, err := strconv.Atoi(f[5]); err != nil || !ok || !ok2 {
+		return "bad-op"
+	}
+	req := f[1] + " /p HTTP/1." + f[2][1:] + "\r\nHost: h\r\n"
+	if f[3] != "-" {
+		req += "Connection: " + string(conn) + "\r\n"
+	}
+	req += "\r\n"
+	r, _ := bfe_server.VerifC27RunBackend([]byte(req), f[4] == "1", wire)
+	if r.ReadErr == "backend" {
+		return "backend-rejected"
+	}
+	return renderRes(r)
 }
 
 // execReqPair: Request.Write of two backend requests, sequentially (reference) and interleaved.
@@ -307,11 +438,86 @@ func genPair(r *vh.Rand) string {
 			na++
 		}
 	}
+	// B has at most as many keys as A (the seeded C27-c shape) or, 1 in 4, is the larger response
 	b := side("b", false, na)
-	return "p " + a.String() + ";" + b.String()
+	if r.Chance(1, 4) {
+		b = side("b", r.Chance(1, 2), 12)
+	}
+	at := ""
+	if r.Chance(1, 3) {
+		at = fmt.Sprintf("@%d ", []int{60, 200, 4096, 5100, 5200, 6000}[r.Intn(6)])
+	}
+	return "p " + at + a.String() + ";" + b.String()
+}
+
+func genBackend(r *vh.Rand) string {
+	method := r.Pick("GET", "GET", "GET", "HEAD")
+	proto := r.Pick("11", "11", "10")
+	conn := "-"
+	switch r.Intn(8) {
+	case 0:
+		conn = hx("close")
+	case 1, 2:
+		conn = hx("keep-alive")
+	}
+	ka := "1"
+	if r.Chance(1, 15) {
+		ka = "0"
+	}
+	status := r.Pick("200", "200", "200", "200", "204", "304", "206", "404", "500", "100", "101", "301")
+	var framing string
+	switch r.Intn(10) {
+	case 0, 1, 2, 3:
+		n := r.Range(0, 40)
+		if r.Chance(1, 4) {
+			n = []int{0, 1, 511, 512, 513, 1024, 3000}[r.Intn(7)]
+		}
+		m := n
+		switch r.Intn(8) {
+		case 0:
+			m = n / 2 // the backend dies mid-body
+		case 1:
+			m = n + r.Range(1, 5) // extra bytes behind the declared body
+		}
+		framing = fmt.Sprintf("L%d_%d", n, m)
+	case 4, 5, 6, 7:
+		k := r.Range(0, 3)
+		var ss []string
+		for i := 0; i < k; i++ {
+			ss = append(ss, strconv.Itoa(r.Range(1, 150)))
+		}
+		framing = "C" + strings.Join(ss, "_")
+		if r.Chance(1, 4) {
+			framing += "t"
+		}
+		if k > 0 && r.Chance(1, 5) {
+			framing += "x"
+		}
+	default:
+		framing = fmt.Sprintf("N%d", r.Range(0, 480))
+	}
+	flags := ""
+	if r.Chance(1, 6) {
+		flags += "c"
+	} else if r.Chance(1, 6) {
+		flags += "k"
+	}
+	if r.Chance(1, 2) {
+		flags += "T"
+	}
+	if r.Chance(1, 8) {
+		flags += "B"
+	}
+	if flags == "" {
+		flags = "-"
+	}
+	return fmt.Sprintf("b %s %s %s %s %s %s %s", method, proto, conn, ka, status, framing, flags)
 }
 
 func gen(r *vh.Rand) string {
+	if r.Chance(1, 8) {
+		return genBackend(r)
+	}
 	if r.Chance(1, 14) {
 		return genPair(r)
 	}
